@@ -66,7 +66,7 @@ fn virtual_time_connections(rep: &Report) -> u64 {
 fn configured_server_ids(rep: &Report) -> u64 {
     use passage_adapters::authentication::AuthenticationAdapter;
     let mut n = 0;
-    let ids = ["", "lobby", "0123", "007", "1e5", "TRUE", "+7", "-0", "12.50", "0x1F"];
+    let ids = ["", "lobby", "0123", "007", "1e5", "TRUE", "+7", "-0", "12.50", "0x1F", "exactly-twenty-chars", "twenty-one-characters", "a server id of forty-three characters, long", "a-server-id-well-beyond-any-protocol-string-limit-that-a-tidy-minded-conversion-might-want-to-enforce-on-it"];
     let dir = format!("{}/target/c11-config-{}", common::VERIF_ROOT, std::process::id());
     let _ = std::fs::create_dir_all(&dir);
     let rt = tokio::runtime::Builder::new_current_thread().enable_all().build().expect("rt");
@@ -160,5 +160,6 @@ pub fn run(cli: Cli) -> ! {
     rep.set("whole_connections_over_tcp_requests_captured", json!(r));
     rep.set("whole_connections_under_virtual_time", json!(v));
     rep.assume("whole connections: the has-joined request goes to a loopback mock through the add-only verif-hooks origin override of passage-adapters-http; everything else is the unhooked code");
+    crate::app::mojang_host(&rep, "C11");
     rep.finish()
 }
